@@ -31,6 +31,19 @@ HARNESS = {
 HARNESS["sizeof"] = ("typedef uint16 word_t; struct W { word_t w; uint8 z; }; struct S { uint8 n; uint8 a[n * sizeof(uint32)]; uint8 b[n * sizeof(word_t) + sizeof(W)]; uint8 t; };",
                      [bytes([1]) + bytes(range(0x10, 0x14)) + bytes(range(0x20, 0x25)) + b"\x07", bytes([2]) + bytes(range(0x30, 0x38)) + bytes(range(0x40, 0x47)) + b"\x08",
                       bytes([0]) + bytes(range(0x50, 0x53)) + b"\x09"])
+# read-only harnesses (parse/parse only): state that a reader might keep per type between two lines
+HARNESS["grid"] = ("struct S { uint8 h; uint8 w; uint8 cells[h][w]; uint16 rows[h][w + 1]; uint8 t; };",
+                   [bytes([2, 3]) + bytes(range(0x10, 0x16)) + bytes(range(0x20, 0x30)) + b"\x07", bytes([3, 1]) + bytes(range(0x40, 0x43)) + bytes(range(0x50, 0x5C)) + b"\x08",
+                    bytes([1, 2]) + bytes(range(0x60, 0x62)) + bytes(range(0x70, 0x76)) + b"\x09"])
+HARNESS["wideint"] = ("struct S { uint8 n; uint24 ids[n]; int48 v; uint128 q; int24 w; uint8 t; };",
+                      [bytes([2]) + bytes(range(0x11, 0x17)) + bytes(range(0x21, 0x27)) + bytes(range(0x31, 0x41)) + bytes([0xF1, 0xF2, 0xF3]) + b"\x07",
+                       bytes([1]) + bytes(range(0x81, 0x84)) + bytes(range(0x91, 0x97)) + bytes(range(0xA1, 0xB1)) + bytes([0x01, 0x02, 0x03]) + b"\x08",
+                       bytes([3]) + bytes(range(0x41, 0x4A)) + bytes(range(0x51, 0x57)) + bytes(range(0x61, 0x71)) + bytes([0x7F, 0x80, 0x81]) + b"\x09"])
+HARNESS["wstr"] = ("struct S { wchar s[]; uint8 t; wchar u[]; uint8 k; };",
+                   ["a\U0001F600b".encode("utf-16-le") + b"\x00\x00\x05" + "xy".encode("utf-16-le") + b"\x00\x00\x06",
+                    "\U00010000\u20ac".encode("utf-16-le") + b"\x00\x00\x07" + "\U0010FFFF".encode("utf-16-le") + b"\x00\x00\x08",
+                    "plain".encode("utf-16-le") + b"\x00\x00\x09" + "\ud7ff\U0001F601".encode("utf-16-le") + b"\x00\x00\x0a"])
+READ_ONLY = ("grid", "wideint", "wstr")
 PAIRS = ("parse/parse", "parse/dumps", "dumps/dumps", "parse/deref")
 
 
@@ -103,6 +116,8 @@ def harnesses(tier):
         for compiled in (False, True):
             for pair in PAIRS:
                 if pair == "parse/deref" and hname != "ptr":
+                    continue
+                if hname in READ_ONLY and pair != "parse/parse":
                     continue
                 if pair in ("parse/dumps", "dumps/dumps") and hname in ("ptr",):
                     continue
